@@ -63,8 +63,9 @@ package forwarder
 //@ macro fwdAttr(p) = p.Forwarding.Attributes.cachedValue
 //@ func (f *Forwarder) HandlePacket(ctx, packet) (err)
 //@   requires[inv] f != nil && f.router != nil && f.bankKeeper != nil
-//@   modifies bank, events, fwdcalls, fwd_ctrl, out_n, out_kind, out_cctp, out_cctpc, out_hyp, out_send
+//@   modifies bank, events, fwdcalls, fwd_ctrl, fwd_pkt, out_n, out_kind, out_cctp, out_cctpc, out_hyp, out_send
 //@   ensures[C05] fwdcalls <= old(fwdcalls) + 1
+//@   ensures[C06] fwdcalls > old(fwdcalls) ==> fwd_pkt == packet
 //@   ensures[C05] fwdcalls > old(fwdcalls) ==> packet != nil && packet.Forwarding != nil && mapHas(f.router.routes, packet.Forwarding.ProtocolId) && fwd_ctrl == mapGet(f.router.routes, packet.Forwarding.ProtocolId)
 //@   ensures[C05] packet != nil && packet.Forwarding != nil && !mapHas(f.router.routes, packet.Forwarding.ProtocolId) ==> err != nil && fwdcalls == old(fwdcalls)
 //@   ensures[C08] packet != nil && packet.Forwarding != nil && packet.Forwarding.Attributes != nil && ref(fwdAttr(packet)) != 0 &&
